@@ -209,6 +209,46 @@ func genCfg(r *vh.Rand, ninst int) string {
 	return fmt.Sprintf("cfg %s %s %d %s %s", r.Pick(kinds), r.Pick(kinds), ninst, a, b)
 }
 
+// one schedule shared by the instances and started by whichever calls Next first
+func genShared(r *vh.Rand, n int) []string {
+	var out []string
+	unl := func() string { return fmt.Sprintf("unl:%d", r.PickInt([]int{3600000, 3600000, 60000, 600000, 86400000})) }
+	fin := func() string {
+		switch r.Intn(4) {
+		case 0:
+			return fmt.Sprintf("once:%d", r.Range(40, 400))
+		case 1:
+			return fmt.Sprintf("const:%d:%d", r.Range(50, 400), r.PickInt([]int{1000, 2000, 3000}))
+		case 2:
+			return fmt.Sprintf("line:%d:%d:%d", r.Range(20, 60), r.Range(60, 200), r.PickInt([]int{1000, 2000}))
+		default:
+			return fmt.Sprintf("step:%d:%d:%d:%d", r.Range(20, 40), r.Range(60, 100), r.PickInt([]int{10, 20}), r.PickInt([]int{500, 1000}))
+		}
+	}
+	for i := 0; i < n; i++ {
+		var spec string
+		switch r.Intn(8) {
+		case 0, 1, 2, 3:
+			spec = unl()
+		case 4:
+			spec = fin()
+		case 5:
+			spec = fmt.Sprintf("once:%d+%s", r.Range(1, 3), unl())
+		case 6:
+			spec = unl() + "+" + fin()
+		default:
+			spec = fin() + "+" + fin()
+		}
+		// finite schedules hold at least 40 tokens: 7 goroutines x 4 rounds stay below
+		out = append(out, fmt.Sprintf("shs %s %d %d %d", spec, r.Intn(2), r.PickInt([]int{100, 200, 300}), r.Range(1, 4)))
+	}
+	for i := 0; i < 1+n/4; i++ {
+		ninst := r.Range(2, 12)
+		out = append(out, fmt.Sprintf("shse %d %d %d %d", ninst, r.PickInt([]int{40, 60, 80}), r.Range(2, ninst), r.PickInt([]int{3600000, 600000})))
+	}
+	return out
+}
+
 func gen(r *vh.Rand, tier string) []string {
 	switch tier {
 	case "race-quick":
@@ -236,6 +276,7 @@ func gen(r *vh.Rand, tier string) []string {
 	for i := 0; i < 4+n/100; i++ {
 		out = append(out, genCfg(r, r.Range(1, 4)))
 	}
+	out = append(out, genShared(r, 16+n/10)...)
 	for i := 0; i < n/2; i++ {
 		out = append(out, fmt.Sprintf("own %d %d %s", r.Range(1, 8), r.Range(0, 40), vh.B(r.Bool())))
 		out = append(out, fmt.Sprintf("sched %d %d %s", r.Range(2, 8), r.Range(4, 40), vh.B(r.Chance(1, 4))))
